@@ -102,6 +102,12 @@ def run(ctx, chk):
     if not ok:
         chk.ob("C06.tuple", "step returns a 5-tuple built from one generative_step call", False,
                detail, s.fi.module.path)
+    # ---- the count restarts at reset
+    rr = envfacts.reset_run(ctx)
+    rs = [e for e in rr.stores() if e.kind == "attr" and e.fam == "steps"]
+    chk.ob("C06.reset-count", "reset: the step counter is set to 0 unconditionally",
+           len(rs) == 1 and rs[0].value == C(0) and not [c for c in rs[0].ev.pc if c[0] != "fact"],
+           f"{[(rr.show(e.value), f_show(rr.cn.conj(e.ev.pc))) for e in rs]}", rr.fi.module.path)
     # ---- generative steps do not count
     d = envfacts.gstep_deep(ctx)
     bad = [e for e in d.stores() if e.kind == "attr" and e.fam == "steps"]
